@@ -202,8 +202,15 @@ def distort(rng, pts):
     return out
 
 def rand_border(rng):
-    kind = rng.choice(["circle", "nonconvex", "offcentre", "random", "dup", "line", "single"])
+    kind = rng.choice(["circle", "nonconvex", "offcentre", "random", "dup", "line", "single", "sym", "sym"])
     n = rng.randint(3, 10)
+    if kind == "sym":          # point-symmetric: the centroid is a lattice point; it may itself be a border point (radius 0)
+        oy, ox = rng.randint(-32, 32), rng.randint(-32, 32); pts = []
+        for _ in range(rng.randint(1, 4)):
+            a, b = rng.randint(-40, 40), rng.randint(-40, 40)
+            pts += [[oy + a, ox + b], [oy - a, ox - b]]
+        if rng.random() < 0.4: pts.insert(rng.randrange(len(pts) + 1), [oy, ox])
+        return pts
     if kind == "single": return [[rng.randint(-32, 32), rng.randint(-32, 32)]]
     if kind == "line": return [[rng.randint(-32, 32), 5] for _ in range(n)]
     R = rng.choice([16, 32, 48]); oy, ox = (rng.randint(-64, 64), rng.randint(-64, 64)) if kind != "circle" else (0, 0)
@@ -221,7 +228,9 @@ def rand_points(rng, border, k):
     pts = []
     for _ in range(k):
         c = rng.random()
-        if c < 0.2 and border: pts.append(list(rng.choice(border)))                         # exactly at a border point
+        if c < 0.08 and border and sum(b[0] for b in border) % len(border) == 0 and sum(b[1] for b in border) % len(border) == 0:
+            pts.append([sum(b[0] for b in border) // len(border), sum(b[1] for b in border) // len(border)])   # the centroid itself
+        elif c < 0.2 and border: pts.append(list(rng.choice(border)))                         # exactly at a border point
         elif c < 0.45: pts.append([rng.randint(-2048, 2048), rng.randint(-2048, 2048)])     # far outside
         elif c < 0.55 and border:
             b = rng.choice(border); pts.append([b[0] + rng.randint(-1, 1), b[1] + rng.randint(-1, 1)])   # next to the border
@@ -240,14 +249,14 @@ def _gen_inputs(tier, rng):
     lat = [(y, x) for y in (-1, 0, 1) for x in (-1, 0, 1)]
     allp = [[y * DEN, x * DEN] for y in range(-2, 3) for x in range(-2, 3)]
     for k in ((3, 4) if big else (3,)):
-        for comb in itertools.combinations(lat, k):
-            yield {"op": "util", "grid": allp, "border": [[y * DEN, x * DEN] for (y, x) in comb]}
+        for ci, comb in enumerate(itertools.combinations(lat, k)):
+            yield {"op": "util", "grid": allp, "border": [[y * DEN, x * DEN] for (y, x) in comb], "den": (16, 64, 256)[ci % 3]}
     yield {"op": "util", "grid": allp[:3], "border": []}
     yield {"op": "util", "grid": [], "border": [[0, 0], [16, 0]]}
     # ---- (a) util, random
     for _ in range(1000 if big else 150):
         b = rand_border(rng)
-        yield {"op": "util", "grid": rand_points(rng, b, rng.randint(1, 10)), "border": b}
+        yield {"op": "util", "grid": rand_points(rng, b, rng.randint(1, 10)), "border": b, "den": rng.choice([16, 64, 256])}
     # ---- (c) exhaustive masks
     lim = 11 if big else 9
     for h in range(1, lim + 1):
@@ -262,14 +271,14 @@ def _gen_inputs(tier, rng):
                 yield {"op": "subborder", "mask": m, "sub": {"kind": "ndarray", "v": [rng.choice([1, 2, 4]) for _ in range(n)]},
                        "via": "util" if (n + w) % 2 else "class"}
     # ---- (b), (c) random masks through the public classes
-    for i in range(1200 if big else 180):
+    for i in range(1200 if big else 150):
         while True:
             m = rand_mask(rng); n = npix(m); sub = rand_sub(rng, n); subs = sub_list(sub, n)
             if sum(v * v for v in subs) <= (64 if big else 40): break
         grid = distort(rng, unit_sub_grid16(m, subs))
         mesh = rand_points(rng, grid, rng.randint(1, 6))
         op = ("reloc", "mesh", "mapper")[i % 3]
-        yield {"op": op, "mask": m, "sub": sub, "grid": grid, "mesh": mesh,
+        yield {"op": op, "mask": m, "sub": sub, "grid": grid, "mesh": mesh, "den": rng.choice([16, 64]),
                "mesh_kind": rng.choice(["Delaunay", "Voronoi", "Rectangular"] if op == "mapper" else ["Delaunay", "Voronoi"]),
                "container": rng.choice(["irregular", "grid2d"]) if all(s == 1 for s in subs) else "irregular"}
         if i % 3 == 0:
@@ -306,13 +315,15 @@ def gen_hist(rng, big):
         if total_sub(s0) <= cap: break
     subs = [sub0]
     k = rng.random()
-    if k < 0.3 and sub0["kind"] != "int" and len(set(s0)) > 1:       # same mask object, permuted sub-size map
-        v = list(s0); rng.shuffle(v); subs.append({"kind": rng.choice(["ndarray", "array2d"]), "v": v})
+    if k < 0.35 and len(set(s0)) > 1:                                # same mask object, permuted sub-size map
+        v = list(s0)
+        while v == s0: rng.shuffle(v)
+        subs.append({"kind": rng.choice(["ndarray", "array2d"]), "v": v})
     elif k < 0.45: subs.append(dict(sub0))                           # a second object with the same arguments
-    elif k < 0.6:
+    elif k < 0.7:
         for _ in range(20):
             sub1 = rand_sub(rng, n)
-            if total_sub(sub_list(sub1, n)) <= cap: subs.append(sub1); break
+            if total_sub(sub_list(sub1, n)) <= cap and sub_list(sub1, n) != s0: subs.append(sub1); break
     totals = [total_sub(sub_list(sb, n)) for sb in subs]
     den = rng.choice([16, 64, 64])
     grids = []
@@ -333,7 +344,21 @@ def gen_hist(rng, big):
         if not c: c = [i for i, nn in enumerate(pool_n) if nn == totals[r]]
         return rng.choice(c)
     steps = []
-    if rng.random() < 0.5:     # a grid is relocated, then the mesh of ANOTHER data grid on the same object
+    tmpl = rng.random()
+    if tmpl < 0.2:             # relocate, the caller edits the same grid object in place, relocate / use it again
+        r = 0; g1 = pick_grid(r)
+        steps.append({"do": "reloc", "r": r, "g": g1, "via": rng.choice(["rel", "meshapi"])})
+        for _ in range(rng.randint(1, 2)):
+            steps.append({"do": "edit", "g": g1, "j": rng.randrange(pool_n[g1]), "border": rng.random() < 0.5,
+                          "p": [rng.randint(-1024, 1024), rng.randint(-1024, 1024)]})
+        if rng.random() < 0.6: steps.append({"do": "reloc", "r": r, "g": g1, "via": rng.choice(["rel", "meshapi"])})
+        else: steps.append({"do": "mesh", "r": r, "g": g1, "v": rng.randrange(len(meshes)), "via": rng.choice(["rel", "meshapi"])})
+    elif tmpl < 0.35 and len(subs) > 1:     # the two objects of one mask alternate
+        for r in rng.choice([(0, 1), (1, 0), (0, 1, 0)]):
+            if rng.random() < 0.3: steps.append({"do": "subborder", "r": r})
+            elif rng.random() < 0.5: steps.append({"do": "reloc", "r": r, "g": pick_grid(r), "via": "rel"})
+            else: steps.append({"do": "mesh", "r": r, "g": pick_grid(r), "v": rng.randrange(len(meshes)), "via": "rel"})
+    elif tmpl < 0.7:           # a grid is relocated, then the mesh of ANOTHER data grid on the same object
         r = 0; g1 = pick_grid(r); g2 = pick_grid(r, avoid=g1)
         steps.append({"do": "reloc", "r": r, "g": g1, "via": rng.choice(["rel", "meshapi", "mapper"])})
         k = rng.random()
@@ -403,6 +428,7 @@ def run_hist(aa, inp, skipped):
         obj, own = make_container(aa, v["container"], arr16(v["pts"], den), mask)
         meshes.append([obj, Fs(v["pts"], den), own])
     ok = True; notes = []; terms = []; outs = []; done = 0
+    MESH = {"Delaunay": aa.mesh.Delaunay(), "Voronoi": aa.mesh.Voronoi(), "Rectangular": aa.mesh.Rectangular(shape=(3, 3))}
     def same(obj, cont): return bool((np.array(obj).reshape(-1, 2) == arrF(cont)).all()) if len(cont) else True
     def audit(tag):
         nonlocal ok
@@ -422,6 +448,9 @@ def run_hist(aa, inp, skipped):
         if do == "edit":
             if st["g"] >= len(pool): continue
             o, c, own = pool[st["g"]]; j = st["j"] % len(c); newp = F(st["p"], den)
+            if st.get("border") and len(c) == total_sub(subl[0]) and twin_sbs[0]:
+                j = twin_sbs[0][st["j"] % len(twin_sbs[0])]                     # a point of the border itself moves
+                newp = (c[j][0] + Fraction(st["p"][0] % 9 - 4, den), c[j][1] + Fraction(st["p"][1] % 9 - 4, den))
             if own is not None: own[j] = [float(newp[0]), float(newp[1])]      # the caller writes into his own array
             else: o[j] = [float(newp[0]), float(newp[1])]
             c[j] = newp; audit(tag); continue
@@ -447,11 +476,11 @@ def run_hist(aa, inp, skipped):
             if in_band_F(gc, border_of(gc, rr)): STATS["skipped_band"] += 1; continue
             via = st["via"]
             if via == "rel": f = lambda: rels[r].relocated_grid_from(grid=gobj)
-            elif via == "meshapi": f = lambda: aa.mesh.Delaunay().relocated_grid_from(border_relocator=rels[r], source_plane_data_grid=gobj)
-            elif via == "mapper": f = lambda: aa.mesh.Voronoi().mapper_grids_from(
+            elif via == "meshapi": f = lambda: MESH["Delaunay"].relocated_grid_from(border_relocator=rels[r], source_plane_data_grid=gobj)
+            elif via == "mapper": f = lambda: MESH["Voronoi"].mapper_grids_from(
                 mask=mask, border_relocator=rels[r], source_plane_data_grid=gobj,
                 source_plane_mesh_grid=aa.Grid2DIrregular(values=arrF(gc[:1]))).source_plane_data_grid
-            else: f = lambda: aa.mesh.Rectangular(shape=(3, 3)).mapper_grids_from(
+            else: f = lambda: MESH["Rectangular"].mapper_grids_from(
                 mask=mask, border_relocator=rels[r], source_plane_data_grid=gobj).source_plane_data_grid
             try: res = ("ok", f())
             except Exception as e:
@@ -469,7 +498,7 @@ def run_hist(aa, inp, skipped):
             vobj, vc, _ = meshes[st["v"]]
             if in_band_F(vc, border_of(gc, rr)): STATS["skipped_band"] += 1; continue
             if st["via"] == "rel": f = lambda: pts_out(rels[r].relocated_mesh_grid_from(grid=gobj, mesh_grid=vobj))
-            else: f = lambda: pts_out(aa.mesh.Voronoi().relocated_mesh_grid_from(
+            else: f = lambda: pts_out(MESH["Voronoi"].relocated_mesh_grid_from(
                 border_relocator=rels[r], source_plane_data_grid=gobj, source_plane_mesh_grid=vobj))
             out = call_res(f)
             terms.append(f"(@CMesh QOps {cnat(r)} {cptsF(gc)} {cptsF(vc)}, @OPts QOps {cres_pts(out)})"); outs.append(out)
@@ -481,7 +510,7 @@ def run_hist(aa, inp, skipped):
             if r is not None:
                 if pre is None and in_band_F(gc, border_of(gc, r)): STATS["skipped_band"] += 1; continue
                 if in_band_F(vc, border_of(pc if pre is not None else gc, r)): STATS["skipped_band"] += 1; continue
-            M = getattr(aa.mesh, st["kind"])()
+            M = MESH[st["kind"]]
             def f():
                 kw = {} if pre is None else {"preloads": Preloads(relocated_grid=pool[pre][0])}
                 mg = M.mapper_grids_from(mask=mask, border_relocator=rels[r] if r is not None else None,
@@ -567,9 +596,9 @@ def run_case(inp):
         return dict(coq=None, out=None, py_ok=None, nontrivial=False, kind="skipped_band")
     if op == "util":
         if in_band(inp["grid"], inp["border"], den): return skipped()
-        g = arr16(inp["grid"], den); g0 = g.copy()
-        out = call_res(lambda: pts_out(grid_2d_util.relocated_grid_via_jit_from(grid=g, border_grid=arr16(inp["border"], den))))
-        R["py_ok"] = bool((g == g0).all())          # the caller's grid is not written
+        g = arr16(inp["grid"], den); g0 = g.copy(); b = arr16(inp["border"], den); b0 = b.copy()
+        out = call_res(lambda: pts_out(grid_2d_util.relocated_grid_via_jit_from(grid=g, border_grid=b)))
+        R["py_ok"] = bool((g == g0).all() and (b == b0).all())          # the caller's arrays are not written
         R.update(coq=f"(KUtil {cpts16(inp['grid'], den)} {cpts16(inp['border'], den)} {cres_pts(out)})", out=out,
                  nontrivial=bool(inp["grid"]) and bool(inp["border"]))
         return R
